@@ -392,6 +392,33 @@ void run_program_sepproc(const Program& p, int repeat) {
     if (vf::want_sample()) vf::sample(desc);
 }
 
+// The public entry point CommandLineTestRunner::RunAllTests(argc, argv) (current registry, leak plugin installed and removed
+// around the run) with MANY failures: the returned value must be non-zero whenever a repetition failed, also when the number
+// of failures summed over the repetitions is 256, 512 or 65536-ish (a value that does not survive narrowing).
+void run_exit_value(int ntests, int fails_per_test, int repeat) {
+    Program p;
+    for (int i = 0; i < ntests; i++) { TestSpec t{}; t.kind[1] = CPP_S1; if (fails_per_test >= 2) t.kind[2] = C_S2; p.tests.push_back(t); }
+    std::string desc = vf::fmt("%d tests with %d failing phase(s) each x%d via CommandLineTestRunner::RunAllTests", ntests, fails_per_test, repeat);
+    vf::ctx("static-runner");
+    TestRegistry reg; build_registry(p, reg);
+    TestRegistry* before = TestRegistry::getCurrentRegistry();
+    reg.setCurrentRegistry(&reg);
+    g_console.clear();
+    std::string rarg = vf::fmt("-r%d", repeat);
+    std::vector<const char*> av = {"prog", "-e", rarg.c_str()};
+    int rv = CommandLineTestRunner::RunAllTests((int)av.size(), av.data());
+    UtestShell::setRethrowExceptions(false);
+    reg.setCurrentRegistry(before == &reg ? nullptr : before);
+    long total = (long)ntests * fails_per_test * repeat;
+    if (rv == 0) vf::fail("runner/returns-zero-despite-failure", desc + vf::fmt(": %ld failures over all repetitions, the runner returned 0", total));
+    size_t errs = count_occurrences(g_console, "\nErrors ("), oks = count_occurrences(g_console, "\nOK (");
+    if (errs != (size_t)repeat || oks != 0) vf::fail("summary/OK-despite-failure", desc + vf::fmt(": %zu Errors and %zu OK summaries for %d failing repetitions", errs, oks, repeat));
+    destroy_shells(p);
+    vf::outcome(vf::fmt("static total=%ld", total));
+    vf::count("nontrivial"); vf::count("tests_run", (long)ntests * repeat);
+    if (vf::want_sample()) vf::sample(desc);
+}
+
 void kind_from(long k, int out[3]) { out[0] = (int)(k % NK); out[1] = (int)((k / NK) % NK); out[2] = (int)(k / NK / NK); }
 
 } // namespace
@@ -430,6 +457,15 @@ int main(int argc, char** argv) {
             }
         });
         vf::require_outcomes("sepproc", 3);
+    }
+
+    {
+        // (tests, failing phases per test, repetitions): totals 1..4, 255, 256, 257, 512, 768 and 65536 failures
+        static const int W[][3] = { {1,1,1}, {1,2,1}, {3,1,1}, {2,2,1}, {17,1,15}, {1,1,256}, {2,1,128}, {4,1,64}, {8,1,32}, {16,1,16}, {32,1,8}, {32,2,4}, {16,2,8}, {1,2,128}, {1,1,257}, {32,1,16}, {32,2,12}, {32,2,1024} };
+        long NW = (long)(sizeof W / sizeof *W);
+        vf::info("exitvalue.bound", "CommandLineTestRunner::RunAllTests on the current registry with failure totals 1..4, 255, 256 (reached as 1x256 ... 32x8 and with two failures per test), 257, 512, 768, 65536");
+        vf::section_index("exitvalue", NW, [&](long idx) { run_exit_value(W[idx][0], W[idx][1], W[idx][2]); });
+        vf::require_outcomes("exitvalue", 6);
     }
 
     vf::info("pairs.bound", vf::fmt("all %ld ordered pairs of test kinds, registry, repeat 1", K3 * K3));
